@@ -631,11 +631,7 @@ func (c *caseRun) checkRelay(tag string, rel bridge.BlockRelay, h int64, info ma
 	}
 	if !bytes.Equal(out.AppHash[:], rec.Header.AppHash) {
 		// diagnose with the real store path
-		diag := ""
-		if leaves, err := c.storeTruth(h - 1); err == nil {
-			_, path, _ := bridge.StoreRootAndPath(leaves, "oracle")
-			diag = " real path of 'oracle' bottom-up: " + describePath(path)
-		}
+		diag := c.layoutDiag(h - 1)
 		c.violate("app-hash:"+tag, fmt.Sprintf("oracle root + 5 positional multistore siblings hash to %x, header %d has app hash %x.%s",
 			out.AppHash, h, rec.Header.AppHash, diag), info)
 		return false
@@ -681,6 +677,16 @@ func (c *caseRun) checkRelay(tag string, rel bridge.BlockRelay, h int64, info ma
 		}
 	}
 	return true
+}
+
+// layoutDiag describes the real audit path of the oracle store at version h (for messages).
+func (c *caseRun) layoutDiag(h int64) string {
+	leaves, err := c.storeTruth(h)
+	if err != nil {
+		return ""
+	}
+	_, path, _ := bridge.StoreRootAndPath(leaves, "oracle")
+	return fmt.Sprintf(" [the app commits %d stores; real audit path of 'oracle' bottom-up: %s; the bridge shape is L R R R L]", len(leaves), describePath(path))
 }
 
 func describePath(path []bridge.StorePathStep) string {
@@ -753,6 +759,14 @@ func (c *caseRun) shape(path []bridge.IAVLStep) string {
 	return sb.String()
 }
 
+func firstLines(err error, n int) string {
+	lines := strings.Split(err.Error(), "\n")
+	if len(lines) > n {
+		lines = lines[:n]
+	}
+	return strings.Join(lines, " | ")
+}
+
 func guard(f func() error) (err error) {
 	defer func() {
 		if r := recover(); r != nil {
@@ -775,7 +789,7 @@ func (c *caseRun) proofSingle(r resInfo, reqHeight, commitH int64) {
 		return e
 	})
 	if err != nil {
-		c.violate("service-error:Proof", fmt.Sprintf("no proof for stored result %d at block %d: %v", r.id, commitH, err), info)
+		c.violate("service-error:Proof", fmt.Sprintf("no proof for stored result %d at block %d: %v", r.id, commitH, firstLines(err, 6))+c.layoutDiag(commitH-1), info)
 		return
 	}
 	sp := resp.Result.Proof
@@ -785,7 +799,7 @@ func (c *caseRun) proofSingle(r resInfo, reqHeight, commitH int64) {
 	}
 	rel, err := toRelay(sp.BlockRelayProof)
 	if err != nil {
-		c.violate("response-shape", err.Error(), info)
+		c.violate("response-shape", err.Error()+c.layoutDiag(commitH-1), info)
 		return
 	}
 	od, err := toOracleData(sp.BlockHeight, sp.OracleDataProof)
@@ -861,7 +875,7 @@ func (c *caseRun) proofCount(ctxHeight, commitH int64) {
 		return e
 	})
 	if err != nil {
-		c.violate("service-error:RequestCountProof", fmt.Sprintf("no count proof at block %d: %v", commitH, err), info)
+		c.violate("service-error:RequestCountProof", fmt.Sprintf("no count proof at block %d: %v", commitH, firstLines(err, 6))+c.layoutDiag(commitH-1), info)
 		return
 	}
 	cp := resp.Result.Proof
@@ -871,7 +885,7 @@ func (c *caseRun) proofCount(ctxHeight, commitH int64) {
 	}
 	rel, err := toRelay(cp.BlockRelayProof)
 	if err != nil {
-		c.violate("response-shape", err.Error(), info)
+		c.violate("response-shape", err.Error()+c.layoutDiag(commitH-1), info)
 		return
 	}
 	path, err := toPath(cp.CountProof.MerklePaths)
@@ -934,7 +948,7 @@ func (c *caseRun) proofMulti(ids []uint64, ctxHeight, commitH int64) {
 		return e
 	})
 	if err != nil {
-		c.violate("service-error:MultiProof", fmt.Sprintf("no multi proof for %v at block %d: %v", ids, commitH, err), info)
+		c.violate("service-error:MultiProof", fmt.Sprintf("no multi proof for %v at block %d: %v", ids, commitH, firstLines(err, 6))+c.layoutDiag(commitH-1), info)
 		return
 	}
 	mp := resp.Result.Proof
@@ -944,7 +958,7 @@ func (c *caseRun) proofMulti(ids []uint64, ctxHeight, commitH int64) {
 	}
 	rel, err := toRelay(mp.BlockRelayProof)
 	if err != nil {
-		c.violate("response-shape", err.Error(), info)
+		c.violate("response-shape", err.Error()+c.layoutDiag(commitH-1), info)
 		return
 	}
 	if !c.checkRelay("json", rel, commitH, info) || !c.checkLayout(rel, commitH, info) {
